@@ -23,6 +23,9 @@ Clauses(S, o) ==
      <<"size.asdict", o.size = PairsOf(S.edges, SeqSize(S))>>,
      <<"size.aslist", o.sizel = SeqSize(S)>>,
      <<"order.aslist", o.ordl = [k \in DOMAIN S.edges |-> SizeOf(S, S.edges[k]) - 1]>>,
+     <<"size.degree_arg", \A k \in DOMAIN o.sized :
+          /\ o.sized[k][2] = [j \in DOMAIN S.edges |-> Cardinality({n \in S.e2n[S.edges[j]] : Degree(S, n) = o.sized[k][1]})]
+          /\ o.sized[k][3] = [j \in DOMAIN S.edges |-> Cardinality({n \in S.e2n[S.edges[j]] : Degree(S, n) = o.sized[k][1]}) - 1]>>,
      <<"size.aspandas", o.sizepi = S.edges /\ o.sizepv = SeqSize(S)>>,
      <<"handshake", SumSeq(o.degl) = SumSeq(o.sizel)>>,
      <<"multi.asdict", o.multid = [k \in DOMAIN S.nodes |-> <<S.nodes[k], <<Degree(S, S.nodes[k]), DegreeOrd(S, S.nodes[k], 1)>> >>]>>,
